@@ -21,6 +21,8 @@ type ctxSt struct {
 	children []*ctxSt
 	timer    bool // has a pending timer
 	fired    bool
+	hasDL    bool  // created with a deadline (WithTimeout)
+	dur      int64 // the timeout in ns when it was concrete, else -1
 }
 
 func (in *Interp) ctxValue(c *ctxSt) Value {
@@ -65,16 +67,26 @@ func (in *Interp) newChildCtx(parent *ctxSt) *ctxSt {
 }
 
 // fireTimer fires one pending timer (the oldest); reports whether one fired.
+//
+// Logical time does not advance in the model: all timers count from the same instant, so the pending timer
+// with the smallest (concrete) timeout fires first; timers with a symbolic timeout fire in creation order
+// after the concrete ones.
 func (in *Interp) fireTimer() bool {
+	var best *ctxSt
 	for _, c := range in.ctxs {
 		if c.timer && !c.done.closed {
-			c.fired = true
-			in.cancelCtx(c, in.newErr("context deadline exceeded", Value{}))
-			in.Cover["timer-fired"] = true
-			return true
+			if best == nil || (c.dur >= 0 && (best.dur < 0 || c.dur < best.dur)) {
+				best = c
+			}
 		}
 	}
-	return false
+	if best == nil {
+		return false
+	}
+	best.fired = true
+	in.cancelCtx(best, in.newErr("context deadline exceeded", Value{}))
+	in.Cover["timer-fired"] = true
+	return true
 }
 
 func (in *Interp) ctxMethod(name string) Value {
@@ -94,6 +106,11 @@ func (in *Interp) ctxMethod(name string) Value {
 		case "Value":
 			return Value{K: KIface}, true
 		case "Deadline":
+			for p := c; p != nil; p = p.parent {
+				if p.hasDL {
+					return tuple(Value{K: KOpaque, R: poison("time")}, mkBool(true)), true // the instant itself is not modelled
+				}
+			}
 			return tuple(Value{K: KOpaque, R: poison("time")}, mkBool(false)), true
 		}
 		unsupported("context method %s", name)
@@ -115,7 +132,10 @@ func init() {
 		},
 		"context.WithTimeout": func(in *Interp, fr *Frame, a []Value) (Value, bool) {
 			c := in.newChildCtx(ctxOf(a[0]))
-			c.timer = true
+			c.timer, c.hasDL, c.dur = true, true, -1
+			if a[1].R == nil {
+				c.dur = sextW(a[1].N, 64)
+			}
 			return tuple(in.ctxValue(c), in.cancelFunc(c)), true
 		},
 	}
